@@ -390,7 +390,7 @@ PROPS["C05"] = dict(
     trusted_base=COMMON_TB + ["crypto::hmac and crypto::key are an opaque MAC model defined in the harness (append records, readout returns an arbitrary digest of D bytes); MAC unforgeability is an assumption",
                               "native replay of these obligations runs the gcc build of the translated real code plus the MAC model (the native library build has the real HMAC)"],
     assumptions=["digest size D = 4 (quick) / 16 (thorough): hmac_cipher is generic in it"],
-    outside="AES+HMAC cipher, session_cookies::load/save (base64, expiry), the digests themselves (C16), confidentiality properties, cross-key transplant",
+    outside="AES-CBC and HMAC themselves (opaque models), aes_factory key derivation, session_cookies::load/save (base64, expiry), the digests themselves (C16), confidentiality properties, cross-key transplant",
     obligations=[
         dict(id="C05.a", harness="C05_hmac_cipher.cpp", entry="h_c05a_decrypt", ctors=False, cut=[STRING_REALLOC], nvec=0, replay="generated",
              desc="hmac_cipher::decrypt: true <=> length >= D and ALL D tag bytes equal the MAC computed over exactly the preceding bytes; plain == those bytes; rejected input leaves the output untouched",
@@ -399,6 +399,12 @@ PROPS["C05"] = dict(
         dict(id="C05.a2", harness="C05_hmac_cipher.cpp", entry="h_c05a_roundtrip", ctors=False, cut=[STRING_REALLOC], nvec=0, replay="generated",
              desc="hmac_cipher: encrypt emits message || MAC(message); decrypt(encrypt(p)) == p for a functional MAC",
              tiers=T(quick=dict(defs=dict(VERIF_D=4), split=[[0, 1, 3]], unwind=12, timeout=600, bounds="D=4; every payload of length 0,1,3"))),
+        dict(id="C05.b", harness="C05_aes_cipher.cpp", entry="h_c05b_aes_decrypt", ctors=False, cut=[STRING_REALLOC], nvec=0, replay="generated",
+             desc="aes_cipher::decrypt (real framing code + real hmac_cipher::equal; block cipher, hash and HMAC are opaque recorded models): rejects ill-sized bodies, MAC over exactly the cipher text and checked on all tag bytes before anything is decrypted, inner length <= available, payload = exactly the bytes after the length field; a well-formed authenticated body is accepted",
+             tiers=T(quick=dict(split=[[0, 7, 8, 11, 12, 13, 16, 20]], unwind=26, timeout=900, bounds="model digest 4 bytes, block 4 bytes; every cookie body of length 0,7,8,11,12,13,16,20; arbitrary digest and decrypted bytes"))),
+        dict(id="C05.b2", harness="C05_aes_cipher.cpp", entry="h_c05b_aes_roundtrip", ctors=False, cut=[STRING_REALLOC], nvec=0, replay="generated",
+             desc="aes_cipher::encrypt emits E(IV block | length | payload | padding) || MAC(cipher text) and decrypt(encrypt(p)) == p for every payload length (decrypt model = inverse of the recorded encryption, MAC functional)",
+             tiers=T(quick=dict(split=[[0, 1, 3, 4, 5, 8]], unwind=30, timeout=900, bounds="model digest 4 bytes, block 4 bytes; every payload of length 0,1,3,4,5,8 (with and without padding)"))),
         dict(id="C05.e", harness="C15_codecs.cpp", entry="h_c15d_b64_decode_safety", ctors=False,
              desc="cookie framing: b64url::decode (string form used by session_cookies::load) rejects a length = 1 mod 4 by returning false (no exception), and never leaves its buffers for other lengths",
              tiers=T(quick=dict(split=[[0, 1, 2, 4, 5, 9]], unwind=16, timeout=600, bounds="every byte string of length 0,1,2,4,5,9"))),
